@@ -39,6 +39,8 @@ theorem redial_rq (n : Nat) (s : St) : (redial n s).rq = s.rq := (redial_frame n
 theorem redial_closed (n : Nat) (s : St) : (redial n s).closed = s.closed := (redial_frame n s).2.2.1
 theorem redial_inc_le (n : Nat) (s : St) : s.inc ≤ (redial n s).inc := (redial_frame n s).2.2.2.2.1
 
+theorem reconnect_rq (s : St) : (reconnect s).rq = s.rq := redial_rq _ _
+
 theorem redial_dials (n : Nat) : ∀ s : St, ∃ k, (redial n s).dials = s.dials ++ List.replicate k true := by
   induction n with
   | zero => intro s; exact ⟨0, by simp [redial_zero]⟩
@@ -155,6 +157,21 @@ theorem allLogged_logTo (s : St) (bs : Bytes) (hinv : LogsInv s) :
 theorem write_dead (s : St) (h : s.closed = true ∨ s.dead = true) (bs : Bytes) : write s bs = (s, .err) := by
   simp [write, h]
 
+theorem write_live (s : St) (bs : Bytes) (h1 : ¬ (s.closed = true ∨ s.dead = true)) (h2 : ¬ s.failW = true) :
+    write s bs = (logTo s bs, .wrote s.inc) := by
+  unfold write; rw [if_neg h1, if_neg h2]
+
+theorem write_redial_dead (s : St) (bs : Bytes) (h1 : ¬ (s.closed = true ∨ s.dead = true)) (h2 : s.failW = true)
+    (h3 : (reconnect s).dead = true) : write s bs = (reconnect s, .err) := by
+  unfold write; rw [if_neg h1, if_pos h2]; exact if_pos h3
+
+theorem write_redial_ok (s : St) (bs : Bytes) (h1 : ¬ (s.closed = true ∨ s.dead = true)) (h2 : s.failW = true)
+    (h3 : ¬ (reconnect s).dead = true) : write s bs = (logTo (reconnect s) bs, .wrote (reconnect s).inc) := by
+  unfold write; rw [if_neg h1, if_pos h2]; exact if_neg h3
+
+theorem deliver_ping (s : St) (h1 : ¬ (s.closed = true ∨ s.dead = true)) : deliver s pingMsg = write s pongMsg := by
+  unfold deliver; rw [if_neg h1, if_pos rfl]
+
 /-- a write either is accepted (logged once, at the end) or returns an error (nothing logged) -/
 theorem write_spec (s : St) (bs : Bytes) (hinv : LogsInv s) :
     LogsInv (write s bs).1 ∧
@@ -164,11 +181,11 @@ theorem write_spec (s : St) (bs : Bytes) (hinv : LogsInv s) :
   split
   · exact ⟨hinv, .inr ⟨rfl, rfl⟩⟩
   · split
-    · have hr := allLogged_redial s.budget s hinv
-      simp only [reconnect]
-      split
-      · exact ⟨hr.2, .inr ⟨rfl, hr.1⟩⟩
-      · have hl := allLogged_logTo (redial s.budget s) bs hr.2
+    · have hr : allLogged (reconnect s) = allLogged s ∧ LogsInv (reconnect s) := allLogged_redial s.budget s hinv
+      by_cases hdd : (reconnect s).dead = true
+      · rw [if_pos hdd]; exact ⟨hr.2, .inr ⟨rfl, hr.1⟩⟩
+      · rw [if_neg hdd]
+        have hl := allLogged_logTo (reconnect s) bs hr.2
         exact ⟨hl.2, .inl ⟨_, rfl, by rw [hl.1, hr.1]⟩⟩
     · have hl := allLogged_logTo s bs hinv
       exact ⟨hl.2, .inl ⟨_, rfl, hl.1⟩⟩
@@ -191,13 +208,13 @@ theorem step_logged (s : St) (e : Ev) (hinv : LogsInv s) :
     · rw [hl, ho]; simp [acc1]
   | failW => exact ⟨hinv, by simp [step, acc1, allLogged]⟩
   | failR =>
-    have hr := allLogged_redial s.budget s hinv
-    simp only [step, failRead, reconnect]
+    have hr : allLogged (reconnect s) = allLogged s ∧ LogsInv (reconnect s) := allLogged_redial s.budget s hinv
+    simp only [step, failRead]
     split
     · exact ⟨hinv, by simp [acc1]⟩
-    · split
-      · exact ⟨hr.2, by simp [acc1, hr.1]⟩
-      · exact ⟨hr.2, by simp [acc1, hr.1]⟩
+    · by_cases hdd : (reconnect s).dead = true
+      · rw [if_pos hdd]; exact ⟨hr.2, by simp [acc1, hr.1]⟩
+      · rw [if_neg hdd]; exact ⟨hr.2, by simp [acc1, hr.1]⟩
   | script l => exact ⟨hinv, by simp [step, acc1, allLogged]⟩
   | deliver bs =>
     simp only [step, deliver]
@@ -248,7 +265,7 @@ theorem run_absorb (evs : List Ev) : ∀ s : St, (s.closed = true ∨ s.dead = t
 /-! ### dials -/
 
 theorem step_dials (s : St) (e : Ev) : ∃ k, (step s e).1.dials = s.dials ++ List.replicate k true := by
-  have hr := redial_dials s.budget s
+  have hr : ∃ k, (reconnect s).dials = s.dials ++ List.replicate k true := redial_dials s.budget s
   have h0 : ∃ k, s.dials = s.dials ++ List.replicate k true := ⟨0, by simp⟩
   have hw : ∀ bs, ∃ k, (write s bs).1.dials = s.dials ++ List.replicate k true := by
     intro bs
@@ -256,19 +273,20 @@ theorem step_dials (s : St) (e : Ev) : ∃ k, (step s e).1.dials = s.dials ++ Li
     split
     · exact h0
     · split
-      · simp only [reconnect]
-        split
-        · exact hr
-        · exact hr
+      · by_cases hdd : (reconnect s).dead = true
+        · rw [if_pos hdd]; exact hr
+        · rw [if_neg hdd]; exact hr
       · exact h0
   cases e with
   | write bs => exact hw bs
   | failW => exact h0
   | failR =>
-    simp only [step, failRead, reconnect]
+    simp only [step, failRead]
     split
     · exact h0
-    · split <;> exact hr
+    · by_cases hdd : (reconnect s).dead = true
+      · rw [if_pos hdd]; exact hr
+      · rw [if_neg hdd]; exact hr
   | script l => exact h0
   | deliver bs =>
     simp only [step, deliver]
@@ -310,10 +328,9 @@ theorem write_rq (s : St) (bs : Bytes) : (write s bs).1.rq = s.rq ∧ rd1 (write
   split
   · exact ⟨rfl, rfl⟩
   · split
-    · simp only [reconnect]
-      split
-      · exact ⟨redial_rq _ _, rfl⟩
-      · exact ⟨redial_rq _ _, rfl⟩
+    · by_cases hdd : (reconnect s).dead = true
+      · rw [if_pos hdd]; exact ⟨reconnect_rq _, rfl⟩
+      · rw [if_neg hdd]; exact ⟨reconnect_rq _, rfl⟩
     · exact ⟨rfl, rfl⟩
 
 theorem step_reads (s : St) (e : Ev) (hc : ¬ s.closed = true) (hd : ¬ s.dead = true) :
@@ -325,10 +342,12 @@ theorem step_reads (s : St) (e : Ev) (hc : ¬ s.closed = true) (hd : ¬ s.dead =
     rw [h1, h2]; simp [del1]
   | failW => simp [step, rd1, del1]
   | failR =>
-    simp only [step, failRead, reconnect]
+    simp only [step, failRead]
     split
     · simp [rd1, del1]
-    · split <;> simp [rd1, del1, redial_rq]
+    · by_cases hdd : (reconnect s).dead = true
+      · rw [if_pos hdd]; simp [rd1, del1, reconnect_rq]
+      · rw [if_neg hdd]; simp [rd1, del1, reconnect_rq]
   | script l => simp [step, rd1, del1]
   | deliver bs =>
     simp only [step, deliver]
